@@ -364,6 +364,75 @@ func (sc *SC) lacksAttrs(as *armState, arm string, l0Atoms, anaAtoms []int) *pa.
 	if len(ana) == 0 {
 		return pa.False
 	}
+	// only a test of the attribute list as it will be written counts: a load of token.Attr that a store to token.Attr
+	// (the result of sanitizeAttrs) can still follow speaks about the attributes of the input, not the survivors
+	finalLoad := func(ld *ssa.UnOp) bool {
+		blocks := sc.S.Arms[arm].Blocks
+		seen := map[*ssa.BasicBlock]bool{}
+		stack := []*ssa.BasicBlock{ld.Block()}
+		first := true
+		for len(stack) > 0 {
+			b := stack[len(stack)-1]
+			stack = stack[:len(stack)-1]
+			if seen[b] && !first {
+				continue
+			}
+			after := !first || false
+			for _, in := range b.Instrs {
+				if first && in == ssa.Instruction(ld) {
+					after = true
+					continue
+				}
+				if !after {
+					continue
+				}
+				if st, ok := in.(*ssa.Store); ok {
+					if fa, ok := st.Addr.(*ssa.FieldAddr); ok && fa.X == ssa.Value(sc.S.TokAlloc) && pa.FieldName(fa) == "Attr" {
+						return false
+					}
+				}
+			}
+			first = false
+			seen[b] = true
+			for _, nx := range b.Succs {
+				if blocks[nx] && nx != sc.S.Header && !seen[nx] {
+					stack = append(stack, nx)
+				}
+			}
+		}
+		return true
+	}
+	// atoms are keyed by the symbolic value: the same atom can stand for loads in several arms — judge the loads of
+	// this arm that carry the atom's symbol
+	final := func(atom int) bool {
+		at := sc.A.Atoms[atom]
+		x, ok := at.Resolve(at.X).(*ssa.UnOp)
+		if !ok {
+			return false
+		}
+		want := sc.A.Sym.Of(x)
+		n := 0
+		for b := range sc.S.Arms[arm].Blocks {
+			for _, in := range b.Instrs {
+				ld, ok := in.(*ssa.UnOp)
+				if !ok || sc.S.TokenField(ld) != "Attr" || sc.A.Sym.Of(ld) != want {
+					continue
+				}
+				n++
+				if !finalLoad(ld) {
+					return false
+				}
+			}
+		}
+		return n > 0
+	}
+	var finals []int
+	for _, l := range l0Atoms {
+		if final(l) {
+			finals = append(finals, l)
+		}
+	}
+	l0Atoms = finals
 	var post []int
 	anaFn := sc.c.P.Func(load.ModPath, "(*Policy).allowNoAttrs")
 	for _, b := range sortedBlocks(sc.S.Arms[arm].Blocks) {
